@@ -196,3 +196,11 @@ also("C15", "control-dependence rule on mode flags", "Also decides that no decis
 also("C16", "who-may-manufacture rule on evidence sources", "Also decides that the extraction and verification libraries create no getter / variable reader of their own when handed the caller's options.")
 also("C17", "record fields as path-state cells; per-return type check of PEM blocks", "Decisions and keys parked in an update record are followed to where the record is applied.")
 also("C19", "open-flag rule on the output back end (shared with C03.R9)", "Also decides that an existing --out file is replaced wholly.")
+
+# rules added after the round-13 seeds and finding F26
+also("C02", "dominance rule on endorsement productions", "Also decides that an endorsement other than the one the caller pinned is produced only where no endorsement was pinned.")
+also("C07", "guarded-difference rule (T21)", "Also decides that a difference of two decoded values feeding a range check is taken only where the subtrahend is known to be no larger.")
+also("C08", "guarded-difference rule (T21)", "Also decides that differences of image-decoded sizes used as slice bounds are taken only where the subtrahend is known to be no larger (named value exceptions listed).")
+also("C11", "dominance rule on existence probes", "Also decides that the storage back ends answer 'exists' only after a successful probe.")
+also("C16", "nil-test rule on optional evidence sources", "Also decides that an absent getter / variable reader / quote provider is reported, never called through (F26).")
+also("C18", "who-may-call rule on content searches in decoders", "Also decides that size-prefixed fields are delimited by their size, not by their content.")
